@@ -95,3 +95,22 @@ let () =
       (match Proto.round_trip p0 p1 (iface i) (str u = "1") (chunks cs) with
        | None -> S "fail" | Some calls -> L (List.map vcall calls)) | _ -> failwith "arity");
   register "proto_iface_ok" (function [i] -> vbool (Proto.iface_ok (iface i)) | _ -> failwith "arity")
+
+(* ---- Model/ConnArm.v (C14, __arm__ configuration) ---- *)
+let aoutcome = function
+  | ConnArm.ADone (st, ds) ->
+      L [S "ok"; vbytes st.ConnArm.arr; vint (int_of_n st.ConnArm.cnt); vbool st.ConnArm.exc; vint (int_of_n st.ConnArm.areq); L (List.map vbytes ds)]
+  | ConnArm.AFail (e, ds) ->
+      let c = (match e with Conn.OutOfFuel -> "fuel" | Conn.OutOfBounds -> "oob" | Conn.AssertFailed -> "assert") in
+      L [S c; S ""; vint 0; vbool false; vint 0; L (List.map vbytes ds)]
+
+let () =
+  (* conn_feed_arm <p0p1> <LargestMessageSize()> [chunks] -> [status array cnt exc required [deliveries]] *)
+  register "conn_feed_arm" (function [p; l; cs] ->
+      let (p0, p1) = pre p in
+      aoutcome (ConnArm.feed_arm p0 p1 (ConnArm.eff_largest (n_of_int (int_of l))) ConnArm.ainit (chunks cs)) | _ -> failwith "arity");
+  (* conn_arm_fits <LargestMessageSize()> [msgs] [chunks] -> "1" iff msg_fits / chunk_fits hold of every message / chunk *)
+  register "conn_arm_fits" (function [l; ms; cs] ->
+      let lg = ConnArm.eff_largest (n_of_int (int_of l)) in
+      vbool (List.for_all (fun m -> ConnArm.msg_fits lg ([], m)) (chunks ms) && List.for_all (ConnArm.chunk_fits lg) (chunks cs)) | _ -> failwith "arity");
+  register "conn_arm_cap" (function [] -> vint (int_of_n ConnArm.cap) | _ -> failwith "arity")
